@@ -26,6 +26,7 @@ type Obligation struct {
 	Cand   *Assumption     // if this obligation decides a Houdini candidate
 	Tree   *GoalTree       // the goal as a decision tree (optional; same meaning as Goal)
 	fullGoal Term
+	Dead     bool // the path condition is refuted by the assumptions: discharged vacuously
 	seq      int // position in generation order (1-based)
 	Result string          // unsat|sat|unknown
 	Solver string
@@ -164,6 +165,7 @@ type Tr struct {
 	noTimeouts bool
 	globalStoreGuard func(a *Act, st *State, g *ssa.Global) Term
 	quietReads       bool
+	tailFn           string // name of the abstract outcome function of the tail-recursive loop being translated
 	prop      string
 	piTerm    Term
 	coverResult string
